@@ -72,6 +72,33 @@ pub fn tuple_case(ctx: &mut Ctx, code: u16, idx: u64) {
             }
         }
     }
+    // the same through the owned form: the values parsed from the RFC encoding, converted with into_owned,
+    // still are the RFC's field values and still serialise to that encoding
+    let owned = monitor::guard(|| {
+        let pk = simple_dns::Packet::parse(&reference).ok()?;
+        let mut o = pk.clone();
+        o.questions = pk.questions.iter().map(|q| q.clone().into_owned()).collect();
+        o.answers = pk.answers.iter().map(|r| r.clone().into_owned()).collect();
+        o.name_servers = pk.name_servers.iter().map(|r| r.clone().into_owned()).collect();
+        o.additional_records = pk.additional_records.iter().map(|r| r.clone().into_owned()).collect();
+        if let Some(opt) = pk.opt() {
+            *o.opt_mut() = Some(opt.clone().into_owned());
+        }
+        Some((bridge::observe(&o), o.build_bytes_vec().ok()))
+    });
+    match owned {
+        Err(pn) => ctx.panic_violation("Packet::into_owned", &pn, case()),
+        Ok(None) => {}
+        Ok(Some((obs, bytes))) => {
+            if let Some(d) = diff_pkt(&p, &obs) {
+                ctx.violation("parse-rfc-encoding", &format!("owned-fields-differ:{}", tname), format!("fields of the into_owned() copy of the parsed packet differ from the RFC's: {}", d), case());
+            } else if bytes.as_deref() != Some(&reference[..]) {
+                ctx.violation("write-rfc-encoding", &format!("owned-written-bytes-differ:{}", tname), "the into_owned() copy of the parsed packet does not serialise to the RFC encoding".into(), case());
+            } else {
+                ctx.count("owned_copies_equal");
+            }
+        }
+    }
     // write side
     let lib = match monitor::guard(|| bridge::to_lib(&p)) {
         Ok(Ok(l)) => l,
